@@ -24,7 +24,7 @@ func init() {
 	for i := 0; i < 8; i++ {
 		floor = append(floor, fmt.Sprintf("opts.%d", i))
 	}
-	floor = append(floor, "bg.async", "bg.spin", "bg.spinasync", "bg.once", "bg.error", "bg.panic(error)", "bg.panic(string)", "bg.panic(runtime error)", "outcome.error", "outcome.rows")
+	floor = append(floor, "bg.async", "bg.spin", "bg.spinasync", "bg.once", "bg.error", "bg.panic(error)", "bg.panic(string)", "bg.panic(runtime error)", "bg.argument-fails", "bg.reads-derived-row", "outcome.error", "outcome.rows")
 	// background-call bookkeeping for SPIN: the check waits for stragglers so
 	// that a panic in a detached goroutine is attributed to the right case
 	genql.RegisterFunction("vbg", func(q *genql.Query, cur genql.Map, o *genql.FunctionOptions, args []any) (any, error) {
@@ -37,6 +37,16 @@ func init() {
 			return args[0], nil
 		}
 		return vfail(q, cur, o, args)
+	})
+	// a background call that reads all of its arguments (a row handed to it is walked)
+	genql.RegisterFunction("vbgread", func(q *genql.Query, cur genql.Map, o *genql.FunctionOptions, args []any) (any, error) {
+		bgStarted.Add(1)
+		defer bgFinished.Add(1)
+		n := 0
+		for i := 0; i < 20; i++ {
+			n += len(fmt.Sprint(args...))
+		}
+		return float64(n), nil
 	})
 	// an immediate function registered under a name that is not all lower case
 	genql.RegisterImmediateFunction("VImmMixed", func(q *genql.Query, cur genql.Map, o *genql.FunctionOptions, args []any) (any, error) {
@@ -246,7 +256,33 @@ func c10Build(c *fw.Case) c10Case {
 		cs.faultK, cs.mode = 1+c.Intn(5), int32(1+c.Intn(4))
 		cs.feats = append(cs.feats, "bg."+faultModeNames[cs.mode])
 		cs.bg = true
-		switch c.Intn(4) {
+		switch c.Intn(7) {
+		case 6:
+			// the call is handed whole rows of a derived table (whose own
+			// clean-up the outer query adopts) and reads them in the background
+			cs.faultK, cs.mode = 0, 0
+			cs.sql = gen.Pick(c.R, []string{
+				"SELECT " + q + ".VBGREAD(x) AS v FROM (SELECT * FROM t1) x",
+				"SELECT " + q + ".VBGREAD(x, x.rid) AS v FROM (SELECT *, rid AS r2 FROM t1 WHERE n1 >= 0) x",
+				"SELECT " + q + ".VBGREAD((SELECT * FROM `<-.u1`)) AS v FROM t1",
+				"WITH c AS (SELECT * FROM t1) SELECT " + q + ".VBGREAD(x) AS v FROM c x"})
+			cs.feats = append(cs.feats, "bg.reads-derived-row")
+		case 4:
+			// the call never starts: one of its arguments fails or panics on some row
+			cs.sql = "SELECT rid, " + q + ".CONCAT(VFAIL(n1), 'x') AS v FROM t1"
+			if c.Chance(0.5) {
+				cs.sql = "SELECT rid, " + q + ".VBG(n1) AS v, " + q + ".HASH(VFAIL(s1), 'md5') AS w FROM t1"
+			}
+			cs.feats = append(cs.feats, "bg.argument-fails")
+		case 5:
+			// ... by itself: a substring beyond the text, a negative shift count
+			cs.faultK, cs.mode = 0, 0
+			cs.sql = gen.Pick(c.R, []string{
+				"SELECT rid, " + q + ".CONCAT(SUBSTR(s1, 0, 500)) AS v FROM t1",
+				"SELECT rid, " + q + ".TO_UPPER(SUBSTR(s1, 40, 2)) AS v FROM t1",
+				"SELECT rid, " + q + ".HASH(rid << (0 - 1), 'md5') AS v FROM t1",
+				"SELECT rid, " + q + ".VBG(n1) AS a, " + q + ".CONCAT(ELEMENTAT(arr, 0 - 1)) AS v FROM t1"})
+			cs.feats = append(cs.feats, "bg.argument-fails")
 		case 0:
 			cs.sql = "SELECT rid, " + q + ".VBG(n1) AS v FROM t1"
 		case 1:
